@@ -351,6 +351,8 @@ class _JSONPipeCommunicator:
             def default(self, obj: Any) -> Any:  # noqa: ANN401
                 if isinstance(obj, np.ndarray):
                     return obj.tolist()
+                if isinstance(obj, Path):
+                    return str(obj)
                 return super().default(obj)
 
         if self._write_fd is None:
